@@ -108,6 +108,9 @@ func versionFromPath(path string) (string, int) {
 		return path, 0
 	}
 	dot += und
+	if dot < und+2 {
+		return path, 0
+	}
 
 	version, err := strconv.Atoi(path[und+2 : dot])
 	if err != nil {
